@@ -5,6 +5,7 @@ mod common;
 mod rng;
 mod c11;
 mod c06;
+mod c05;
 
 use std::io::{BufWriter, Write};
 
@@ -25,6 +26,7 @@ fn main() {
             match prop {
                 "C11" => c11::gen(tier, seed, &mut out),
                 "C06" => c06::gen(tier, seed, &mut out),
+                "C05" => c05::gen(tier, seed, &mut out),
                 _ => {
                     eprintln!("unknown property {}", prop);
                     std::process::exit(2);
@@ -64,6 +66,15 @@ fn replay_one(toks: &[&str]) -> String {
             std::fs::create_dir_all(&scratch).unwrap();
             let r = c06::observe(&toks[1..], &scratch);
             common::rm_rf(&scratch);
+            r
+        }
+        "C05" => {
+            let scratch = common::scratch_root().join("c05r");
+            std::fs::create_dir_all(&scratch).unwrap();
+            let r = c05::observe(&toks[1..], &scratch);
+            if std::env::var("VERIF_KEEP").is_err() {
+                common::rm_rf(&scratch);
+            }
             r
         }
         other => format!("unknown-model {}", other),
